@@ -8,6 +8,10 @@ import common
 from common import Prop, Witness, Failure, LEAN, write_if_changed
 from translate import leanfmt as L
 import gen
+import leandrv
+import c13lib
+
+leandrv.EXES["C13"] = "c13drv"
 
 
 def namespace():
@@ -151,8 +155,8 @@ def deep_copy(e):
 
 class C13(Prop):
     pid = "C13"
-    lean_modules = ["UflVerif.Props.C13"]
-    min_theorems = 6
+    lean_modules = ["UflVerif.Props.C13", "UflVerif.Props.C13Eq", "UflVerif.Props.C13Value"]
+    min_theorems = 25
     trusted = ["translator harness/props/c13.py: constructs the near-miss objects through the public constructors and observes ==, hash, repr, signature, shape, pickle, eval(repr)",
                "modelled rather than verified: pickle and eval(repr(.)) are observed only (per class on the table objects and on generated expressions); "
                "the element class is the test suite's utils.FiniteElement (third-party elements define their own ==/hash/repr)"]
@@ -297,7 +301,143 @@ class C13(Prop):
                           "==/hash/repr/shape consistency, symmetry, transitivity, purity of comparison, pickle and eval(repr) round trips; plus forms with equal/different metadata; "
                           "non-trivial = distinct expression repr" % (len(getattr(self, "rows", [])), len(getattr(self, "kinfo", []))))
         ev.cov["samples"] = [r for r in getattr(self, "rows", [])[:4]]
-        return []
+        return self.tie_state(ctx, ev)
+
+    # ---- tie of the state model of expr_equals (Model/ExprEq.lean, c13drv) ---------------------------------------------
+    def _pools(self, ctx, rng):
+        """generated pools + directed pools from the table objects (two objects differing in one field, wrapped in operators)"""
+        import ufl
+        from ufl.classes import PositiveRestricted, Expr, MultiIndex, Label, Indexed, Variable, Sum
+        n = 70 if ctx.quick else 1200
+        for k in range(n):
+            G = gen.Gen(rng, gdim=rng.choice([2, 3]), math=(k % 2 == 0), compound=(k % 3 == 0), derivs=(k % 4 == 0), reuse=0.8,
+                        base_elements=True, with_args=(k % 5 == 0))
+            sh = rng.choice([(), (), (2,), (2, 2)])
+            nan = (k % 7 == 3)
+            yield ("gen%d" % k, c13lib.make_pool(G, rng, sh, rng.randint(1, 3), nan=nan))
+        f = ufl.Coefficient(ufl.FunctionSpace(ufl.Mesh(__import__("utils").LagrangeElement(ufl.triangle, 1, (2,)), ufl_id=77),
+                                              __import__("utils").LagrangeElement(ufl.triangle, 1, (2,))), count=970)
+        for name, (make, base, alt) in kinds().items():
+            o1 = make(base)
+            if not isinstance(o1, Expr):
+                continue
+            for fld, v in alt.items():
+                d2 = dict(base); d2[fld] = v
+                try:
+                    o1, o1c, o2 = make(base), make(dict(base)), make(d2)
+                except Exception:
+                    continue
+                if isinstance(o1, MultiIndex):
+                    wrap = lambda t: Indexed(ufl.outer(f, f), t)
+                elif isinstance(o1, Label):
+                    wrap = lambda t: Variable(f, t)
+                else:
+                    wrap = lambda t: PositiveRestricted(t)
+                try:
+                    pool = [("t", wrap(o1)), ("copy", wrap(o1c)), ("alt", wrap(o2)), ("t2", wrap(o1))]
+                    if not isinstance(o1, (MultiIndex, Label)):
+                        pool += [("term", o1), ("termcopy", o1c), ("termalt", o2)]
+                        if o1.ufl_shape == () and o2.ufl_shape == ():
+                            pool += [("sum", Sum(wrap(o1), f[0])), ("sumalt", Sum(wrap(o2), f[0]))]
+                except Exception:
+                    continue
+                yield ("table:%s.%s" % (name, fld), pool)
+
+    def tie_state(self, ctx, ev):
+        import ufl
+        from ufl.classes import Variable
+        rng = random.Random(ctx.seed * 7919 + 1313)
+        reqs, cases = [], []
+        labels = {}
+        for cname, pool in self._pools(ctx, rng):
+            if len(pool) < 2:
+                continue
+            objs = [e for _, e in pool]
+            states = c13lib.prehash(pool, rng)
+            tags = c13lib.Tags()
+            try:
+                ws = [c13lib.wire(e, tags) for e in objs]
+            except Exception as ex:  # noqa
+                continue
+            m = len(objs)
+            hist = [(rng.randrange(m), rng.randrange(m)) for _ in range(rng.randint(4, 12))]
+            if cname.startswith("table:"):
+                hist = [(0, 1), (0, 2), (2, 0), (0, 3), (1, 0)] + hist
+            reqs.append("(pool (objs %s) (hist %s))" % (" ".join(ws), " ".join("(%d %d)" % ij for ij in hist)))
+            # the same history on the live objects
+            outs = []
+            for i, j in hist:
+                a, b = objs[i], objs[j]
+                r = bool(a == b)
+                shared = (not a._ufl_is_terminal_) and (not b._ufl_is_terminal_) and a.ufl_operands is b.ufl_operands
+                outs.append((r, shared, isinstance(a, Variable) or isinstance(b, Variable)))
+            nan = any(c13lib.has_nan(e) for e in objs)
+            mat = []
+            for a in objs:
+                for b in objs:
+                    mat.append((bool(a == b), hash(a) == hash(b), repr(a) == repr(b),
+                                (a.ufl_shape, a.ufl_free_indices, a.ufl_index_dimensions) == (b.ufl_shape, b.ufl_free_indices, b.ufl_index_dimensions)))
+            cases.append((cname, pool, states, hist, outs, mat, nan, tags))
+            for lab, _ in pool:
+                labels[lab.split(":")[0] if not lab.startswith("near:") else lab] = labels.get(lab.split(":")[0] if not lab.startswith("near:") else lab, 0) + 1
+        fails = []
+        replies = leandrv.run_driver("C13", reqs)
+        steps = eqpairs = nanpools = mism = 0
+        nontrivial = set()
+        import re
+        for (cname, pool, states, hist, outs, mat, nan, tags), rep in zip(cases, replies):
+            mm = re.match(r"\(r ?(.*)\) \(m (.*)\)$", rep)
+            if not mm:
+                fails.append(Failure("correspondence", "expr_equals-state", "driver reply: %s" % rep[:300], case=cname))
+                continue
+            rs = re.findall(r"\((\d) (\d)\)", mm.group(1))
+            ms = re.findall(r"\((\d) (\d) (\d) (\d)\)", mm.group(2))
+            desc = lambda: "; ".join("%d:%s[%s] %s" % (i, lab, st, repr(e)[:120]) for i, ((lab, e), st) in enumerate(zip(pool, states)))
+            for k, ((i, j), (r, shared, isvar), (mr, ms_)) in enumerate(zip(hist, outs, rs)):
+                steps += 1
+                if r != (mr == "1") or (not isvar and shared != (ms_ == "1")):
+                    fails.append(Failure("correspondence", "expr_equals-state",
+                                         "case %s step %d: pool[%d] == pool[%d]: impl (%s, operands shared %s) model (%s, %s) | history %s | pool %s" % (
+                                             cname, k, i, j, r, shared, mr, ms_, hist[:k + 1], desc()), case=cname))
+                    break
+            if nan:
+                nanpools += 1
+                continue
+            n = len(pool)
+            for idx, ((e, h, r, sf), (me, mh, mr, mx)) in enumerate(zip(mat, ms)):
+                i, j = divmod(idx, n)
+                if e:
+                    eqpairs += 1
+                    if i != j and pool[i][1] is not pool[j][1]:
+                        nontrivial.add(repr(pool[i][1]))
+                bad = None
+                if e != (me == "1"):
+                    bad = "== after the history is %s, structural == of the model is %s" % (e, me)
+                elif h != (mh == "1"):
+                    bad = "hash equality %s, model %s" % (h, mh)
+                elif r != (mr == "1"):
+                    bad = "repr equality %s, model %s" % (r, mr)
+                elif e and (mx != "1" or not sf):
+                    bad = "== expressions with different derived data / shape / free indices (auxAgree %s, same shape+indices %s)" % (mx, sf)
+                if bad:
+                    mism += 1
+                    fails.append(Failure("correspondence", "expr_equals-matrix", "case %s pair (%d, %d): %s | impl (==, hash==, repr==) = %s, model = %s | pool %s" % (
+                        cname, i, j, bad, (e, h, r), (me, mh, mr), desc()), case=cname))
+                    self.last_bad_pool = (cname, i, j, pool)
+                    self.bad.append((bad, dict(kind="state-" + bad.split(" ")[0], a=repr(pool[i][1])[:300], b=repr(pool[j][1])[:300])))
+                    break
+        ev.cov["state_pools"] = len(cases)
+        ev.cov["state_history_steps"] = steps
+        ev.cov["state_equal_pairs"] = eqpairs
+        ev.cov["state_pools_with_nan"] = nanpools
+        ev.cov["state_pool_entry_kinds"] = dict(sorted(labels.items()))
+        ev.cov["traces_validated_against_impl"] = steps
+        ev.cov["evaluations"] += steps + sum(len(c[5]) for c in cases)
+        ev.cov["distinct_nontrivial"] += len(nontrivial)
+        ev.cov["rule"] += ("; (S) state tie: %d pools (base, unshared rebuild, shallow rebuild, pickle copy, sub-object, one-field near misses of one terminal "
+                           "occurrence, reversed operands, unrelated; mixed fresh/partly/fully hashed), a random comparison history per pool run on the live objects "
+                           "and on Model/ExprEq.lean (outcome and operand-tuple sharing per step), then ==/hash/repr matrices against eqE/hashE/reprE" % len(cases))
+        return fails[:20]
 
     def oracle(self, ctx, ev):
         out, seen = [], set()
@@ -317,12 +457,35 @@ class C13(Prop):
             for f in ("copyEq", "copyHash", "copyRepr", "pickleEq", "evalReprEq"):
                 if not k[f]:
                     out.append(Witness(what="%s: an equal copy fails %s" % (k["kind"], f), key="C13:%s.%s" % (k["kind"], f), data=k))
+        out += self.nan_witness()
         for w, d in getattr(self, "bad", []):
             if d["kind"] in seen:
                 continue
             seen.add(d["kind"])
             out.append(Witness(what=w + " :: " + d.get("a", "")[:200], key="C13:" + d["kind"], data=d))
         return out
+
+
+    def nan_witness(self):
+        """replay of C13_eq_equivalence_counterexample on the implementation"""
+        import ufl
+        from ufl.classes import FloatValue, Sum
+        from utils import LagrangeElement
+        m = ufl.Mesh(LagrangeElement(ufl.triangle, 1, (2,)), ufl_id=4243)
+        f = ufl.Coefficient(ufl.FunctionSpace(m, LagrangeElement(ufl.triangle, 1)), count=980)
+        try:
+            n, n2 = FloatValue(float("nan")), FloatValue(float("nan"))
+            e1, e2, e3 = Sum(n, f), Sum(n, f), Sum(n2, f)
+            obs = dict(lit_eq_itself=bool(n == n), e1_eq_e1=bool(e1 == e1), e1_eq_rebuild_sharing_literal=bool(e1 == e2),
+                       e1_eq_same_structure_other_nan_object=bool(e1 == e3), same_repr=repr(e1) == repr(e3), same_hash=hash(e1) == hash(e3),
+                       pickle_round_trip_eq=bool(pickle.loads(pickle.dumps(e1)) == e1))
+        except Exception as ex:  # a tree that rejects NaN literals has no such expressions
+            return []
+        if obs["lit_eq_itself"] and obs["e1_eq_same_structure_other_nan_object"] and obs["pickle_round_trip_eq"]:
+            return []
+        return [Witness(what="FloatValue(nan) != FloatValue(nan): == is not reflexive on a NaN literal, and an expression containing one is == to a rebuild sharing the "
+                             "literal object but != to its pickle round trip / to the same structure with another NaN object (equal repr and hash)",
+                        key="C13:nan-literal", data=obs)]
 
 
 PROP = C13()
